@@ -370,7 +370,8 @@ func main() {
 		naiveEvery = 4
 	}
 	g := &generator{r: hx.NewRand(o.Seed)}
-	for i := 0; i < cases && len(res.Findings) == 0; i++ {
+	violations := 0
+	for i := 0; i < cases && violations == 0 && len(res.Findings) < 3; i++ {
 		c := g.gen(o.Tier)
 		if i%naiveEvery == naiveEvery-1 {
 			c.backend = "naive"
@@ -387,7 +388,12 @@ func main() {
 		}
 		res.History(c.lines(), out.flags["alias-or-duplicate"] && out.flags["nested-tree"])
 		if out.monitor != "" || out.mismatch != "" {
+			// a model/implementation disagreement does not end the search: keep
+			// looking for an input on which the property itself fails
 			report(c, out)
+			if out.monitor != "" {
+				violations++
+			}
 		}
 	}
 	res.ModelLines = drv.Lines
